@@ -5,7 +5,10 @@ use crate::types::*;
 use caches::lru::CacheError;
 use caches::Cache;
 
-pub struct CtorSubj;
+#[derive(Default)]
+pub struct CtorSubj {
+    rewrite: Option<Ints>,
+}
 
 fn cache_err(e: CacheError) -> Ints {
     match e {
@@ -46,6 +49,11 @@ impl Subject for CtorSubj {
         let f = |i: usize| f64::from_bits(op[i] as u64);
         if op[0] == 141 {
             return builder_script(op);
+        }
+        if op[0] == 142 {
+            let (out, rec) = conversion(op);
+            self.rewrite = Some(rec);
+            return out;
         }
         match op[1] {
             1 => match caches::RawLRU::<TKey, TVal>::new(u(2)) {
@@ -116,6 +124,113 @@ impl Subject for CtorSubj {
     fn snapshot(&self) -> Ints {
         vec![]
     }
+    fn take_op_rewrite(&mut self) -> Option<Ints> {
+        self.rewrite.take()
+    }
+}
+
+/// `[142 src (k v)*]`: build the source collection from the pairs, record its iteration order (that is what
+/// the model gets: `[142 src (k v)* in iteration order]`), convert it into a RawLRU; result `cap n (k v)*`
+/// most recent first.  src: 0 FromIterator, 1 &[..], 2 &mut [..], 3 [..; N] (N <= 4), 4 Vec, 5 VecDeque,
+/// 6 LinkedList, 7 HashSet, 8 BTreeSet, 9 BinaryHeap, 10 HashMap, 11 BTreeMap, 12 FromIterator over a
+/// filtered iterator (size_hint().0 == 0)
+fn conversion(op: &[i128]) -> (Ints, Ints) {
+    use caches::RawLRU;
+    use std::collections::{BTreeMap, BTreeSet, BinaryHeap, HashMap, HashSet, LinkedList, VecDeque};
+    let src = op[1];
+    let mut pairs: Vec<(u64, u64)> = op[2..].chunks(2).filter(|c| c.len() == 2).map(|c| (c[0] as u64, c[1] as u64)).collect();
+    if src == 3 {
+        pairs.truncate(4);
+    }
+    let order: Vec<(u64, u64)>;
+    let c: RawLRU<u64, u64> = match src {
+        0 => {
+            order = pairs.clone();
+            pairs.into_iter().collect()
+        }
+        1 => {
+            order = pairs.clone();
+            RawLRU::from(&pairs[..])
+        }
+        2 => {
+            order = pairs.clone();
+            RawLRU::from(&mut pairs[..])
+        }
+        3 => {
+            order = pairs.clone();
+            match pairs.len() {
+                0 => RawLRU::from([] as [(u64, u64); 0]),
+                1 => RawLRU::from([pairs[0]]),
+                2 => RawLRU::from([pairs[0], pairs[1]]),
+                3 => RawLRU::from([pairs[0], pairs[1], pairs[2]]),
+                _ => RawLRU::from([pairs[0], pairs[1], pairs[2], pairs[3]]),
+            }
+        }
+        4 => {
+            order = pairs.clone();
+            RawLRU::from(pairs)
+        }
+        5 => {
+            let d: VecDeque<(u64, u64)> = pairs.into_iter().collect();
+            order = d.iter().cloned().collect();
+            RawLRU::from(d)
+        }
+        6 => {
+            let d: LinkedList<(u64, u64)> = pairs.into_iter().collect();
+            order = d.iter().cloned().collect();
+            RawLRU::from(d)
+        }
+        // (in the no_std build the crate's HashSet / HashMap are hashbrown's, which the harness does not link:
+        //  there the two hash collections go through their iterators)
+        7 => {
+            let d: HashSet<(u64, u64)> = pairs.into_iter().collect();
+            order = d.iter().cloned().collect();
+            #[cfg(feature = "std")]
+            let c = RawLRU::from(d);
+            #[cfg(not(feature = "std"))]
+            let c = d.into_iter().collect();
+            c
+        }
+        8 => {
+            let d: BTreeSet<(u64, u64)> = pairs.into_iter().collect();
+            order = d.iter().cloned().collect();
+            RawLRU::from(d)
+        }
+        9 => {
+            let d: BinaryHeap<(u64, u64)> = pairs.into_iter().collect();
+            order = d.iter().cloned().collect();
+            RawLRU::from(d)
+        }
+        10 => {
+            let d: HashMap<u64, u64> = pairs.into_iter().collect();
+            order = d.iter().map(|(k, v)| (*k, *v)).collect();
+            #[cfg(feature = "std")]
+            let c = RawLRU::from(d);
+            #[cfg(not(feature = "std"))]
+            let c = d.into_iter().collect();
+            c
+        }
+        11 => {
+            let d: BTreeMap<u64, u64> = pairs.into_iter().collect();
+            order = d.iter().map(|(k, v)| (*k, *v)).collect();
+            RawLRU::from(d)
+        }
+        _ => {
+            order = pairs.clone();
+            pairs.into_iter().filter(|_| true).collect()
+        }
+    };
+    let mut out = vec![c.cap() as i128, c.len() as i128];
+    for (k, v) in c.iter() {
+        out.push(*k as i128);
+        out.push(*v as i128);
+    }
+    let mut rec = vec![142, src];
+    for (k, v) in order {
+        rec.push(k as i128);
+        rec.push(v as i128);
+    }
+    (out, rec)
 }
 
 fn twoq_out<RH: std::hash::BuildHasher, FH: std::hash::BuildHasher, GH: std::hash::BuildHasher>(
@@ -274,6 +389,14 @@ pub fn grid() -> Vec<Ints> {
             v.push(vec![140, 11, s as i128, r.to_bits() as i128]);
         }
     }
+    // every conversion: empty, one pair, a repeated key, more pairs than any small capacity
+    for src in 0..=12i128 {
+        for pairs in [&[][..], &[1, 10][..], &[1, 10, 1, 11][..], &[1, 10, 2, 20, 1, 11, 3, 30][..], &[5, 50, 4, 40, 3, 30, 2, 20, 1, 10, 5, 51][..]] {
+            let mut o = vec![142, src];
+            o.extend(pairs.iter().map(|x| *x as i128));
+            v.push(o);
+        }
+    }
     // every builder: default() / new(..) alone, and each setter once after new(..)
     // (TinyLFUBuilder is not nameable outside the crate: TinyLFU::new is its only public use)
     for which in 1..=4i128 {
@@ -335,6 +458,17 @@ pub fn random_op(r: &mut crate::prng::Rng) -> Ints {
             _ => ((r.below(1_000_001) as f64) / 1_000_000.0).to_bits() as i128,
         }
     };
+    if r.chance(1, 5) {
+        // a conversion: a few pairs over a small key range (repeated keys matter: the last value wins)
+        let mut o = vec![142, r.below(13) as i128];
+        let n = if r.chance(1, 8) { 0 } else { r.below(9) };
+        let span = 1 + r.below(8);
+        for _ in 0..n {
+            o.push(r.below(span) as i128);
+            o.push(1000 + r.below(100) as i128);
+        }
+        return o;
+    }
     if r.chance(2, 5) {
         // a builder script: the setters in any order and multiplicity
         let which = 1 + r.below(4) as i128;
